@@ -1134,14 +1134,23 @@ func Scen(args []string) error {
 		return err
 	}
 	defer out.Close()
+	errOut, _ := os.Create(*outp + ".stderr")
 	for _, p := range parts {
-		f, err := os.Open(p)
-		if err != nil {
-			continue
+		if f, err := os.Open(p); err == nil {
+			_, _ = io.Copy(out, f)
+			f.Close()
+			os.Remove(p)
 		}
-		_, _ = io.Copy(out, f)
-		f.Close()
-		os.Remove(p)
+		if f, err := os.Open(p + ".stderr"); err == nil {
+			if errOut != nil {
+				_, _ = io.Copy(errOut, f)
+			}
+			f.Close()
+			os.Remove(p + ".stderr")
+		}
+	}
+	if errOut != nil {
+		errOut.Close()
 	}
 	return nil
 }
@@ -1203,6 +1212,10 @@ func superviseChild(bin string, scens [][]byte, outPath string, w int) error {
 			}
 		}
 		werr := cmd.Wait()
+		if ef, err := os.OpenFile(outPath+".stderr", os.O_APPEND|os.O_CREATE|os.O_WRONLY, 0o644); err == nil {
+			ef.WriteString(stderr.String())
+			ef.Close()
+		}
 		if tf, err := os.Open(tracePath); err == nil {
 			_, _ = io.Copy(outF, tf)
 			tf.Close()
